@@ -171,8 +171,10 @@ def run(ctx):
         gty = [s.callee[1] for s in ev.sites.values()]
         ctx.ob("E7.rng", "get_crypto_rng/type", bool(gty) and gty[0][:1] == ("ChaCha20Rng",), "generator type: %s" % str(gty[0] if gty else None), where=where(g))
     # statics / thread locals / once cells
-    stat = [s for s in P.statics if not s.get("from_expansion") or True]
-    ctx.ob("E7.statics", "statics", not stat, "static / thread_local items in the crate: %s" % [s["path"] for s in stat][:5])
+    # state that survives a call: thread-locals, `static mut`, and statics with interior mutability.  An immutable
+    # `Freeze` static is a constant table and cannot carry a generator or a counter.
+    stat = [s for s in P.statics if s.get("thread_local") or s.get("mutable") or not s.get("freeze", False)]
+    ctx.ob("E7.statics", "statics", not stat, "thread_local / mutable / interior-mutable static items in the crate: %s (%d static item(s) in total)" % ([s["path"] for s in stat][:5], len(P.statics)))
     PC.run_posctl(ctx, "E7.statics", "statics")
     cells = call_sites(P, lambda c, t: any(x in c["path"] for x in ("OnceLock", "OnceCell", "LazyLock", "LazyCell", "lazy_static", "thread::local", "LocalKey", "AtomicU", "AtomicI", "Mutex", "RwLock")))
     ctx.ob("E7.statics", "cells", not cells, "once-cells / thread-local keys / atomics / locks used: %s" % [(f.key, t["callee"]["path"]) for f, bb, t in cells][:4], where=where(cells[0][0], cells[0][1]) if cells else None)
